@@ -198,15 +198,21 @@ def execute(spec, count_lines=False):
                 need = None
             res.save_sizes[key] = need
             fsize = op.get("fsize")
+            def call_save():
+                # `wl.save(path)` or `wl.save(filepath=path)`: the parameter is documented under that name
+                if op.get("by_keyword"):
+                    return wl.save(filepath=path_of(name, kind))
+                return wl.save(path_of(name, kind))
+
             try:
                 if injector:
                     with injector:
-                        wl.save(path_of(name, kind))
+                        call_save()
                 elif fsize is not None:
                     with FileSizeLimit(fsize):
-                        wl.save(path_of(name, kind))
+                        call_save()
                 else:
-                    wl.save(path_of(name, kind))
+                    call_save()
             except BaseException as e:  # noqa
                 if isinstance(e, (SystemExit, GeneratorExit)):
                     raise
@@ -519,6 +525,10 @@ class Program:
                         # somebody else's file under the refused name: a refused save must not touch it
                         ops.append({"op": "prewrite", "file": bad, "prestate": rng.choice(["shorter", "longer", "equalish"])})
                     ops.append({"op": "save", "file": bad, "path_kind": rng.choice(["str", "Path"]), "expect": "refuse"})
+        for o in ops:
+            for b in [o] + list(o.get("body") or []):
+                if b.get("op") == "save" and rng.random() < 0.25:
+                    b["by_keyword"] = True
         return {"format": 1, "property": PROP, "world": world, "ops": ops}
 
 
